@@ -406,7 +406,7 @@ pub fn run(ctx: &Ctx) {
     ctx.subspace("all connected labelled graphs on 2..=4 nodes x every orientation per edge (no NAT)", total, true);
     ctx.sample("graph", || serde_json::to_value(&cases[cases.len() / 2]).unwrap());
     // sampled larger graphs and NAT masks
-    let n: u32 = ctx.tier.pick(400, 8_000);
+    let n: u32 = ctx.tier.pick(1_200, 12_000);
     ctx.proptest(
         "pt-graph",
         n,
